@@ -424,6 +424,103 @@ example (W : World) (f : Func) (a b c : Val) :
   ⟨mixed_section_agrees W f _ _ rfl rfl, rfl, mixed_section_agrees W f _ _ rfl rfl⟩
 
 
+
+/-! ## 4d. call sections whose callee is a placeholder too -/
+
+/-- the values a placeholder-free prefix contributes -/
+def mixVals : List Mix → List Val → List Val
+  | [], _ => []
+  | .lit k :: ps, args => args.take k ++ mixVals ps (args.drop k)
+  | .spread k :: ps, args => args.take k ++ mixVals ps (args.drop k)
+  | .hole :: ps, args => mixVals ps (args.drop 1)
+  | .spreadHole k :: ps, args => mixVals ps (args.drop k)
+
+theorem mixSlots_noholes (pat : List Mix) (args : List Val) (h : pat.any Mix.isHole = false) :
+    mixSlots pat args = (mixVals pat args).map .val ∧ (mixBuild pat args).2 = [] := by
+  induction pat generalizing args with
+  | nil => simp [mixSlots, mixVals, mixBuild]
+  | cons p ps ih =>
+    cases p with
+    | lit k =>
+      have h' : ps.any Mix.isHole = false := by simpa [Mix.isHole] using h
+      simp only [mixSlots, mixVals, mixBuild, (ih _ h').1, (ih _ h').2, List.map_append, and_self]
+    | spread k =>
+      have h' : ps.any Mix.isHole = false := by simpa [Mix.isHole] using h
+      simp only [mixSlots, mixVals, mixBuild, (ih _ h').1, (ih _ h').2, List.map_append, and_self]
+    | hole => simp [Mix.isHole] at h
+    | spreadHole k => simp [Mix.isHole] at h
+
+theorem sse_mix_noholes (W : World) (pat : List Mix) (args acc : List Val) (h : pat.any Mix.isHole = false) :
+    splatSectionEval W (mixBuild pat args).1 (.inl acc) = .ok (.inl (acc ++ mixVals pat args)) := by
+  induction pat generalizing args acc with
+  | nil => simp [mixBuild, mixVals, splatSectionEval]
+  | cons p ps ih =>
+    cases p with
+    | lit k =>
+      have h' : ps.any Mix.isHole = false := by simpa [Mix.isHole] using h
+      simp only [mixBuild, mixVals]
+      rw [sse_vals_then, ih _ _ h', List.append_assoc]
+    | spread k =>
+      have h' : ps.any Mix.isHole = false := by simpa [Mix.isHole] using h
+      simp only [mixBuild, mixVals, splatSectionEval, iterVal]
+      rw [ih _ _ h', List.append_assoc]
+    | hole => simp [Mix.isHole] at h
+    | spreadHole k => simp [Mix.isHole] at h
+
+/-- `_( … )` with any mix of plain arguments, spreads, `_` and `..._` builds `CallSection(None, slots)`
+with the same slot list as the fixed-callee section -/
+theorem evalCall_callee_slot (W : World) (pat : List Mix) (args : List Val) :
+    evalCall W none (mixBuild pat args).1 = .ok (.func (.callSectionU (mixSlots pat args))) := by
+  cases hh : pat.any Mix.isHole with
+  | true =>
+    have h1 := sse_mix_inl W pat args [] hh
+    simp only [List.map_nil, List.nil_append] at h1
+    simp [evalCall, h1]
+  | false =>
+    have h1 := sse_mix_noholes W pat args [] hh
+    simp only [List.nil_append] at h1
+    simp [evalCall, h1, (mixSlots_noholes pat args hh).1]
+
+/-- The order in which `Func::CallSection(None, slots)` distributes the supplied arguments: the
+FIRST one is the callee, the remaining ones fill the argument slots left to right (splat slots
+spliced), and the callee is called with the restored tuple. -/
+theorem callee_slot_section_distribution (W : World) (f : Func) (pat : List Mix) (args : List Val)
+    (hs : mixSize pat = args.length) :
+    evalForm W (.calleeMix pat) f args = W.callDyn (.func f) args := by
+  have h2 := sse_vals W (Val.func f :: (mixBuild pat args).2) []
+  simp only [List.nil_append, List.map_cons] at h2
+  simp only [evalForm]
+  rw [evalCall_callee_slot, bind_ok]
+  simp only [evalCall, h2, callOrPartApply, Func.run, applySection_mix W pat args hs]
+
+/-- `(_(…slots…))(f, args…) = f(filled…)`: with the dynamic call being `call` (what
+`Func::CallSection` does: `call(env, callee, real_args)`), every callee-slot section denotes the
+plain call -/
+theorem callee_slot_section_agrees (W : World) (f : Func) (pat : List Mix) (args : List Val)
+    (hs : mixSize pat = args.length) (hdyn : W.callDyn (.func f) args = call W (.func f) args) :
+    evalForm W (.calleeMix pat) f args = app W f args := by
+  rw [callee_slot_section_distribution W f pat args hs, hdyn]; rfl
+
+/-- had the slots been filled first, the function would land in the first slot: the model
+distinguishes the two orders (`_(_, b)(f, a)`: callee `f`, arguments `[a, b]`) -/
+example (W : World) (f : Func) (a b : Val) :
+    evalForm W (.calleeMix [.hole, .lit 1]) f [a, b] = W.callDyn (.func f) [a, b] ∧
+    (mixBuild [.hole, .lit 1] [a, b]) = ([.under, .val b], [a]) :=
+  ⟨callee_slot_section_distribution W f _ _ rfl, rfl⟩
+
+/-- non-vacuity of `hdyn`: a world whose dynamic call is `call` of a base world, at a closure -/
+example :
+    let W0 : World :=
+      { bodies := fun _ => ⟨fun _ => .throw, fun _ _ => .throw, fun _ => .throw⟩
+        closure := fun _ args => .ok (.list args)
+        iter := fun _ => .throw, index := fun _ _ => .throw, callType := fun _ _ => .throw
+        callDyn := fun _ _ => .throw, chainN := fun _ _ => .throw, other := fun _ _ => .throw }
+    let W : World := { W0 with callDyn := fun v args => call W0 v args }
+    W.callDyn (.func (.closure 0)) [.atom .num 1, .atom .num 2] = call W (.func (.closure 0)) [.atom .num 1, .atom .num 2] ∧
+    evalForm W (.calleeMix [.hole, .spread 1]) (.closure 0) [.atom .num 1, .atom .num 2] =
+      .ok (.list [.atom .num 1, .atom .num 2]) := by
+  intro W0 W; exact ⟨rfl, rfl⟩
+
 /-! ## 4c. op-assignment whose right-hand side mentions the target itself -/
 
 /-- the right-hand side is evaluated while the variable still holds its old value: `x f= x` is
@@ -577,6 +674,7 @@ theorem forms_agree (W : World) (form : Form) (f : Func) (args : List Val) (hf :
   cases form with
   | secMix pat => exact mixed_section_agrees W f pat args hside.1 hside.2
   | listMix pat => exact mixed_list_section W f pat args hside.1 hside.2
+  | calleeMix pat => exact callee_slot_section_agrees W f pat args hside.1 hside.2
   | opSelf =>
     match args, hlen with
     | [a], _ => exact (op_assign_self_agrees W f a a 0).1
